@@ -547,6 +547,13 @@ theorem constructor_old_fails_on_surrogate {V : Type} (m : Machine V) (prep : Ma
   unfold construct
   rw [heuristicsOld_fails]
 
+/-- The model mirrors the REPAIRED code. On the four inputs where the unrepaired mirrors fail (`heuristicsOld_fails`,
+    `handleCharrefOld_fails_long_decimal`, `handleCharrefOld_fails_codec`,
+    `constructor_old_fails_on_tokenizer_valueerror`) the live constructor of the working tree, run by the translator,
+    ends in a tree or `ParserRejectedMarkup` — false of a tree without fixes/C06-*.diff. -/
+theorem live_code_returns_on_witnesses :
+    Gen.liveWitnesses.length = 4 ∧ ∀ p ∈ Gen.liveWitnesses, p.2 = true := by decide
+
 /-- non-vacuity of `constructor_outcome`: a parser satisfying both hypotheses that rejects (tokenizer
     `AssertionError`) and one that accepts -/
 def rejecting : Parser Unit := { crashing with tokenize := fun _ => ([], some .assertionError) }
